@@ -456,9 +456,67 @@ fn check_inkey(t: &mut Tape, ctx: &Ctx) -> Outcome {
     }
 }
 
+
+// ------------------------------------------------------------------ LIST and CLS leave the cursor in column 0
+
+/// A listing ends every line it shows and CLS homes the cursor: whatever was pending on the line,
+/// the statements behind them lay out their output as they would from column 0.
+fn check_home(t: &mut Tape, ctx: &Ctx) -> Outcome {
+    let before = render_stmts(&[print_list(t)]);
+    let after = render_stmts(&[print_list(t)]);
+    let after2 = render_stmts(&[print_list(t)]);
+    let mid = *t.pick(&["LIST 90", "CLS", "LIST 90-91", "LIST 90:CLS"]);
+    let same_line = t.chance(1, 2);
+    let tail = "PRINT \"<\";POS(0)";
+    let prog_a: Vec<String> = if same_line {
+        vec![format!("10 {}:{}:{}", before, mid, after), format!("20 {}:{}", after2, tail), "30 END".into(), "90 REM z".into()]
+    } else {
+        vec![format!("10 {}", before), format!("12 {}", mid), format!("14 {}", after), format!("20 {}:{}", after2, tail), "30 END".into(), "90 REM z".into()]
+    };
+    let prog_b: Vec<String> = vec![format!("14 {}", after), format!("20 {}:{}", after2, tail), "30 END".into(), "90 REM z".into()];
+    let prog_c: Vec<String> = vec![format!("10 {}", before), "30 END".into(), "90 REM z".into()];
+    let run = |lines: &[String]| -> Option<String> {
+        let mut term = Term::new();
+        let mut o = Opts::default();
+        for l in lines {
+            term.line(l, &mut o);
+        }
+        if !term.take().is_empty() {
+            return None;
+        }
+        term.line("RUN", &mut o);
+        let evs = term.take();
+        if has_panic(&evs).is_some() || flat(&evs).contains('?') {
+            return None;
+        }
+        Some(crate::drive::printed(&evs))
+    };
+    let case = format!("{}\n--- its tail must lay out like\n{}", prog_a.join("\n"), prog_b.join("\n"));
+    crate::runner::note_case(&case);
+    match (run(&prog_a), run(&prog_b), run(&prog_c)) {
+        (Some(a), Some(b), Some(c)) => {
+            // with output pending at its end, the lone first line is closed by the newline that
+            // the end of a run forces: that one is not part of the text in front of LIST / CLS
+            let c = if before.ends_with(';') || before.ends_with(',') { c.strip_suffix('\n').unwrap_or(&c).to_string() } else { c };
+            if !a.starts_with(&c) || a[c.len()..] != b {
+                return Outcome::fail("list-or-cls-left-a-stale-column", format!("whole output {:?}\nthe part before {} is {:?}; the rest should be {:?}", a, mid, c, b), case);
+            }
+            let pending = !c.is_empty() && !c.ends_with('\n');
+            let o2 = Outcome::pass(pending, hash_str(&case)).with_labels(if pending { vec!["output pending on the line when LIST / CLS ran"] } else { vec![] });
+            if ctx.render {
+                o2.with_case(case)
+            } else {
+                o2
+            }
+        }
+        _ => Outcome::discard("an error or a refused line"),
+    }
+}
+
 // ------------------------------------------------------------------ the manual's examples
 
 const MANUAL: &[(&str, &str)] = &[
+    ("PRINT \"AB\";:CLS:PRINT ,\"X\";POS(0)", "AB«cls»              X 15 \n"),
     ("PRINT ,\"Mar\",\"Apr\":?\"Bought\",100,120:?\"Sold\",-97,-123", "              Mar           Apr\nBought         100           120 \nSold          -97           -123 \n"),
     ("PRINT 1.99 TAB(20) \"furlongs per year\"", " 1.99               furlongs per year\n"),
     ("PRINT \"<\"SPC(5)\">\"", "<     >\n"),
@@ -500,11 +558,11 @@ pub fn property() -> Property {
         rule: "Cases: (integers) all 65536 Integers, exhaustive; (floats) proptest-generated Singles and Doubles: random bit patterns, neighbours of every power of ten, 7/9/15/17-digit decimals, subnormals, +-0, inf, NaN, n/8 and n/64 fractions, reciprocals — each stored in a typed variable and printed. \
 Number oracle: the text begins with a blank or a minus sign, ends with exactly one blank, the digits in between parse (correctly rounded, harness side) to the same bits of that type and have no more significant digits than the shortest round-trip representation; inf / NaN as in the manual; and (sign symmetry) x and -x print the same text behind the sign position. \
 (layout) proptest-generated programs of PRINT statements whose items are strings (ASCII, multi-byte, with an embedded line feed), numbers, TAB(n) for n in {0,1,5,13,14,15,20,28,40,255,-1,-5,-14}, SPC, POS(0), separated by ; , juxtaposition, doubled commas, with and without trailing separator, across statements and lines, with INPUT, TRON trace, an error in mid-line, two runs in a row, a direct PRINT, CLEAR between PRINT statements and a RUN started in mid-line (neither touches the cursor). \
-Layout oracle: the reference column model (characters since the last newline; `,` pads to the next multiple of 14 with at least one blank; TAB pads to the column if it is to the right, negative TAB to the next multiple; SPC n blanks; POS the column; trace text counts; INPUT and errors return to column 0); whole transcripts compared. The manual's own examples are checked literally. \
+Layout oracle: the reference column model (characters since the last newline; `,` pads to the next multiple of 14 with at least one blank; TAB pads to the column if it is to the right, negative TAB to the next multiple; SPC n blanks; POS the column; trace text counts; INPUT and errors return to column 0); whole transcripts compared. The manual's own examples are checked literally. (list_and_cls_home_the_cursor) a print list, then LIST n / CLS, then two more print lists and POS(0): the text behind LIST / CLS equals the text the same statements print from column 0. \
 Non-trivial: an Integer that needs a sign or > 4 digits / a float printed with a fraction or exponent / a layout case in which a trailing separator carried the column into the next statement. Distinct by value / program.",
         assumptions: vec![
             "the layout model prints numbers with the reference formatter; the number sub-checks validate that text independently of any notation choice (where plain notation ends and E-notation begins is not documented and not asserted, only that it does not depend on the sign)",
-            "column after LIST or CLS inside a program is outside the statement",
+            "LIST ends every line it shows and CLS homes the cursor: behind either the true column is 0 (sub-check list_and_cls_home_the_cursor; repaired as F37)",
         ],
         subs: vec![
             Sub::items("manual_examples", gen_manual, check_manual, false),
@@ -512,6 +570,7 @@ Non-trivial: an Integer that needs a sign or > 4 digits / a float printed with a
             Sub::tape("floats", check_floats, 150_000, 8_000_000, 120),
             Sub::tape("layout_programs", check_layout, 60_000, 2_000_000, 500),
             Sub::tape("inkey_keeps_the_column", check_inkey, 20_000, 500_000, 200),
+            Sub::tape("list_and_cls_home_the_cursor", check_home, 20_000, 500_000, 200),
         ],
     }
 }
